@@ -5,10 +5,10 @@ namespace MJ.Lexer
 /-- tokens a tag contributes -/
 def tagOuts (cfg : Cfg) (g : Tag) : List Out :=
   match g.kind with
-  | .var => [.var]
-  | .block _ => [.blk]
-  | .comment => []
-  | .raw c ri l2 => [.data (cut (leftCut cfg true ri c) (rightCut cfg false true l2 c) c)]
+  | .var _ => [.var]
+  | .block _ _ => [.blk]
+  | .comment _ => []
+  | .raw c ri l2 _ => [.data (cut (leftCut cfg true ri c) (rightCut cfg false true l2 c) c)]
 
 theorem renderOuts_append (vm bm : List Char) (a b : List Out) :
     renderOuts vm bm (a ++ b) = renderOuts vm bm a ++ renderOuts vm bm b := by
@@ -29,7 +29,8 @@ theorem renderRes_prepend (vm bm : List Char) (o : List Out) (r : Res) :
   cases r <;> simp [Res.prepend, renderRes, renderOuts_append]
 
 theorem handleTag_tag (cfg : Cfg) {d : Delims} (gd : Good d) (lead : List Out) (g : Tag)
-    (preTag t' more : List Char) (hm : NoWsHead more) (hfree : rawFree d g (t' ++ more) = true) :
+    (preTag t' more : List Char) (hm : NoWsHead more) (hfree : rawFree d g (t' ++ more) = true)
+    (hcom : commentOk d g (t' ++ more) = true) :
     handleTag cfg d lead g.marker ((g.start d).length + g.l.ws.len) preTag (g.src d ++ (t' ++ more)) =
       .next (lead ++ tagOuts cfg g)
         ((t'.take (nextK cfg g.blockish g.r t')).reverse ++ ((g.src d).reverse ++ preTag))
@@ -37,20 +38,55 @@ theorem handleTag_tag (cfg : Cfg) {d : Delims} (gd : Good d) (lead : List Out) (
   cases g with
   | mk kind l r =>
     cases kind with
-    | var => exact handleTag_var cfg gd lead l r preTag t' more
-    | block w => exact handleTag_block cfg gd lead w l r preTag t' more hm
-    | comment => exact handleTag_comment cfg gd lead l r preTag t' more hm
-    | raw c ri l2 => exact handleTag_raw cfg gd lead c ri l2 l r preTag t' more hm hfree
+    | var tight => exact handleTag_var cfg gd lead tight l r preTag t' more
+    | block w tight => exact handleTag_block cfg gd lead w tight l r preTag t' more hm
+    | comment body =>
+      simp only [commentOk, Bool.and_eq_true] at hcom
+      exact handleTag_comment cfg gd lead body l r preTag t' more hm hcom.1.1 hcom.2
+    | raw c ri l2 tight => exact handleTag_raw cfg gd lead c ri l2 tight l r preTag t' more hm hfree
 
-theorem Tag.after_head (d : Delims) (g : Tag) (z : List Char) :
-    ∃ y, g.after d ++ z = g.l.src ++ (' ' :: y) := by
+/-- the byte behind the start delimiter is read as the tag's left marker -/
+theorem Tag.ws_head {d : Delims} (gd : Good d) (g : Tag) (z : List Char) (hcom : commentOk d g z = true) :
+    wsOfChar (g.after d ++ z).head? = g.l.ws := by
+  obtain ⟨e0, er, hce, _, _, hm3, hm4⟩ := headOk_cons gd.ce
+  have key : ∀ (l : Mark) (c : Char) (y rest : List Char), isMarkChar c = false → rest = l.src ++ (c :: y) →
+      wsOfChar rest.head? = l.ws := by
+    intro l c y rest hc hr; rw [hr]; exact wsOfChar_mark l c y hc
   cases g with
   | mk kind l r =>
     cases kind with
-    | var => exact ⟨_, by simp [Tag.after, varBody, List.append_assoc]; rfl⟩
-    | block w => cases w <;> exact ⟨_, by simp [Tag.after, Word.src, List.append_assoc]; rfl⟩
-    | comment => exact ⟨_, by simp [Tag.after, commentBody, List.append_assoc]; rfl⟩
-    | raw c ri l2 => exact ⟨_, by simp [Tag.after, rawBody, List.append_assoc]; rfl⟩
+    | var tight =>
+      cases tight
+      · exact key l ' ' _ _ (by decide) (by simp [Tag.after, varBody, pad, List.append_assoc]; rfl)
+      · exact key l 'v' _ _ (by decide) (by simp [Tag.after, varBody, pad, List.append_assoc]; rfl)
+    | block w tight =>
+      cases w <;> cases tight
+      · exact key l ' ' _ _ (by decide) (by simp [Tag.after, Word.src, Word.core, pad, List.append_assoc]; rfl)
+      · exact key l 'i' _ _ (by decide) (by simp [Tag.after, Word.src, Word.core, pad, List.append_assoc]; rfl)
+      · exact key l ' ' _ _ (by decide) (by simp [Tag.after, Word.src, Word.core, pad, List.append_assoc]; rfl)
+      · exact key l 'e' _ _ (by decide) (by simp [Tag.after, Word.src, Word.core, pad, List.append_assoc]; rfl)
+    | raw c ri l2 tight =>
+      cases tight
+      · exact key l ' ' _ _ (by decide) (by simp [Tag.after, rawBody, rawName, pad, List.append_assoc]; rfl)
+      · exact key l 'r' _ _ (by decide) (by simp [Tag.after, rawBody, rawName, pad, List.append_assoc]; rfl)
+    | comment body =>
+      cases l with
+      | minus => simp [Tag.after, Mark.src, Mark.ws, wsOfChar]
+      | plus => simp [Tag.after, Mark.src, Mark.ws, wsOfChar]
+      | none =>
+        simp only [commentOk, Bool.and_eq_true] at hcom
+        have hA := hcom.1.2
+        simp only [bodyStartOk, bne_self_eq_false, Bool.false_or] at hA
+        have hsrc : (Tag.mk (.comment body) .none r).after d ++ z = (body ++ r.src) ++ (d.ce ++ z) := by
+          simp [Tag.after, Mark.src, List.append_assoc]
+        rw [hsrc]
+        cases hbr : body ++ r.src with
+        | nil => simp [hce, Mark.ws, wsOfChar, hm3, hm4]
+        | cons c0 y0 =>
+          have : isMarkChar c0 = false := by
+            rw [hbr] at hA; simpa using hA
+          have h2 : c0 ≠ '-' ∧ c0 ≠ '+' := by simpa [isMarkChar] using this
+          simp [Mark.ws, wsOfChar, h2.1, h2.2]
 
 theorem Tag.src_ne_nil {d : Delims} (gd : Good d) (g : Tag) : g.src d ≠ [] := by
   obtain ⟨c, r, h, _⟩ := own_cons gd (g.own d)
@@ -62,16 +98,16 @@ theorem Tag.src_rev_head {d : Delims} (gd : Good d) (g : Tag) :
   cases g with
   | mk kind l r =>
     cases kind with
-    | var =>
+    | var tight =>
       obtain ⟨c, rr, h, hw⟩ := lastOk_rev gd.lve
       exact ⟨c, _, by simp [Tag.src, Tag.after, List.reverse_append, h]; rfl, hw⟩
-    | block w =>
+    | block w tight =>
       obtain ⟨c, rr, h, hw⟩ := lastOk_rev gd.lbe
       exact ⟨c, _, by simp [Tag.src, Tag.after, List.reverse_append, h]; rfl, hw⟩
-    | comment =>
+    | comment body =>
       obtain ⟨c, rr, h, hw⟩ := lastOk_rev gd.lce
       exact ⟨c, _, by simp [Tag.src, Tag.after, List.reverse_append, h]; rfl, hw⟩
-    | raw cc ri l2 =>
+    | raw cc ri l2 tight =>
       obtain ⟨c, rr, h, hw⟩ := lastOk_rev gd.lbe
       exact ⟨c, _, by simp [Tag.src, Tag.after, List.reverse_append, h]; rfl, hw⟩
 
@@ -101,7 +137,7 @@ theorem step_text_tag (cfg : Cfg) {d : Delims} (gd : Good d) {first : Bool} {ctx
         ((t'.take (nextK cfg g.blockish g.r t')).reverse ++ ((g.src d).reverse ++ (t.reverse ++ ctx)))
         (t'.drop (nextK cfg g.blockish g.r t') ++ unparseTail d rest) (nextTf g.r) := by
   simp only [tailFree, Bool.and_eq_true] at hfree
-  obtain ⟨⟨⟨hns, hown⟩, hraw⟩, _⟩ := hfree
+  obtain ⟨⟨⟨⟨hns, hown⟩, hraw⟩, hcom⟩, _⟩ := hfree
   have hsw : startsWith (g.start d) (unparseTail d ((g, t') :: rest)) = true := by
     simp only [unparseTail, Tag.src, List.append_assoc]
     exact startsWith_append_self _ _
@@ -115,13 +151,12 @@ theorem step_text_tag (cfg : Cfg) {d : Delims} (gd : Good d) {first : Bool} {ctx
   rw [hpre]
   have hsrc : unparseTail d ((g, t') :: rest) = g.src d ++ (t' ++ unparseTail d rest) := by
     simp [unparseTail]
-  obtain ⟨y, hy⟩ := Tag.after_head d g (t' ++ unparseTail d rest)
   have hws : wsOfChar ((unparseTail d ((g, t') :: rest)).drop (g.start d).length).head? = g.l.ws := by
-    rw [hsrc, Tag.src, List.append_assoc, List.drop_left, hy, wsOfChar_mark]
+    rw [hsrc, Tag.src, List.append_assoc, List.drop_left, Tag.ws_head gd g _ hcom]
   rw [hws, if_neg (Tag.marker_ne_lineStmt g)]
   rw [leadOf_eq_cut cfg hc g.l g.marker g.blockish (Tag.marker_blockish g) (Tag.marker_ne_lineStmt g)
     (Tag.marker_ne_lineComment g) t l]
-  rw [hsrc, handleTag_tag cfg gd _ g _ t' _ (noWsHead_unparseTail gd rest) hraw]
+  rw [hsrc, handleTag_tag cfg gd _ g _ t' _ (noWsHead_unparseTail gd rest) hraw hcom]
 
 /-- the last text: no start marker is found -/
 theorem step_last (cfg : Cfg) {d : Delims} (gd : Good d) (ctx t : List Char) (l : Nat)
